@@ -24,6 +24,7 @@ type sessionPlan struct {
 	Host   int    `json:"host"`
 	CI     bool   `json:"client_initiated"`
 	Gap    int    `json:"gap_ms"`
+	Enc    int    `json:"key_enc"` // how the client's encoder writes its public key: 0 canonical, else a way of keyenc_test.go
 	Chal   uint64 `json:"-"`
 }
 
@@ -55,6 +56,7 @@ type scenario struct {
 	SrvTLS    [maxSrv]bool   `json:"srv_tls"`
 	SrvSecret [maxSrv]int    `json:"srv_secret"` // secretMode: 0 own HmacKey, 1 HmacKey shared with the other instances in this mode, 2 HmacKey unset
 	SrvTwin   [maxSrv]bool   `json:"srv_twin"`   // same private key as instance 0 (a replica by identity; its secret is still governed by SrvSecret)
+	SrvEngine [maxSrv]int    `json:"srv_engine"` // what handles the requests: 0 ServeHTTP, 1 handshake state machine, new per request, 2 ONE state machine re-used through Reset() (reuse_test.go)
 	Keys      keyFamily      `json:"hmac_keys"`  // shape of the application-provided HmacKeys, see secrets_test.go
 	SrvKeyVar [maxSrv]keyVar `json:"srv_hmac_key"`
 	Clients   [3]int         `json:"client_key"`
@@ -77,11 +79,12 @@ const (
 	opResign
 	opForge
 	opFormat
-	opQuote // the syntax around one value, see syntax_test.go; always applied after the other operators
+	opQuote  // the syntax around one value, see syntax_test.go; always applied after the other operators
+	opKeyEnc // the public-key parameter re-encoded: another way of writing the very same key (keyenc_test.go)
 	nOps
 )
 
-var opNames = [...]string{"flip", "trunc", "drop", "dup", "reorder", "recase", "reencode", "swap", "move", "resign", "forge", "format", "quote"}
+var opNames = [...]string{"flip", "trunc", "drop", "dup", "reorder", "recase", "reencode", "swap", "move", "resign", "forge", "format", "quote", "keyenc"}
 
 // quoteDraw weights the ways a value's quoting is changed: the kinds that alter the value twice.
 var quoteDraw = []int{qJunkAfterClose, qJunkAfterClose, qJunkThenQuote, qJunkThenQuote, qNoClose, qNoClose, qNoOpen, qNoOpen,
@@ -101,6 +104,7 @@ func drawScenario(rt *rapid.T) scenario {
 			sc.SrvTwin[i] = rapid.IntRange(0, 4).Draw(rt, "srvtwin") == 0
 		}
 		sc.SrvKeyVar[i] = drawKeyVar(rt)
+		sc.SrvEngine[i] = int(rapid.SampledFrom([]engine{engHTTP, engHTTP, engHTTP, engHTTP, engFresh, engReused, engReused}).Draw(rt, "srvengine"))
 	}
 	sc.Keys = drawKeyFamily(rt)
 	for i := range sc.Clients {
@@ -114,6 +118,7 @@ func drawScenario(rt *rapid.T) scenario {
 			Host:   rapid.IntRange(0, 1).Draw(rt, "host"),
 			CI:     rapid.Bool().Draw(rt, "ci"),
 			Gap:    rapid.SampledFrom([]int{0, 0, 1, 1000, 2500}).Draw(rt, "gap"),
+			Enc:    rapid.SampledFrom([]int{0, 0, 0, 1}).Draw(rt, "keyenc") * rapid.IntRange(1, nKeyEncs-1).Draw(rt, "keyencway"),
 			Chal:   rapid.Uint64().Draw(rt, "chal"),
 		})
 	}
@@ -671,6 +676,22 @@ func (c *actx) apply(a *areq, op opPlan) string {
 			a.params = []param{{"public-key", b64(pk)}, {"challenge-server", c.chal}, {"sig", b64(sig)}, {"opaque", b64(forge(key, st))}}
 			return name + ":challenge-si:" + kl
 		}
+	case opKeyEnc:
+		i := idxParam(a.params, "public-key")
+		if i < 0 {
+			return name + ":none"
+		}
+		d, ok := firstDecode(a.params[i].V)
+		if !ok {
+			return name + ":undecodable"
+		}
+		enc, en, tn, id, ok := reencodeKeyBytes(d, op.A, op.B)
+		if !ok {
+			return name + ":not-a-key"
+		}
+		c.w.noteEncoding(enc, en, tn, id)
+		a.params[i].V = b64(enc)
+		return name + ":" + en + ":" + tn
 	case opFormat:
 		switch op.A % 9 {
 		case 0:
@@ -793,7 +814,7 @@ func TestServerProvenance(t *testing.T) {
 		}
 		hmacKeys, keyHow := sc.Keys.keysFor(modes, sc.SrvKeyVar[:sc.NSrv], nil)
 		for i := range conf {
-			conf[i] = srvConf{keyType: keys.Types[sc.SrvKey[i]], ttl: ttlChoices[sc.SrvTTL[i]], tls: sc.SrvTLS[i], secret: modes[i], ident: i, hmac: hmacKeys[i]}
+			conf[i] = srvConf{keyType: keys.Types[sc.SrvKey[i]], ttl: ttlChoices[sc.SrvTTL[i]], tls: sc.SrvTLS[i], secret: modes[i], ident: i, hmac: hmacKeys[i], engine: engine(sc.SrvEngine[i])}
 			if sc.SrvTwin[i] {
 				conf[i].keyType, conf[i].ident = conf[0].keyType, conf[0].ident
 			}
@@ -808,7 +829,7 @@ func TestServerProvenance(t *testing.T) {
 				if sp.Gap > 0 {
 					time.Sleep(time.Duration(sp.Gap) * time.Millisecond)
 				}
-				ss := w.honest(sp.Client, w.srv[sp.Srv], hostNames[sp.Host], sp.CI, challengeText(sp.Chal))
+				ss := w.honestEnc(sp.Client, w.srv[sp.Srv], hostNames[sp.Host], sp.CI, challengeText(sp.Chal), sp.Enc, int(sp.Chal>>8))
 				for _, s := range ss {
 					if s.hasHdr {
 						steps = append(steps, s)
@@ -819,6 +840,13 @@ func TestServerProvenance(t *testing.T) {
 					flow = "ci"
 				}
 				labels = append(labels, "honest:"+flow+":"+idents[sp.Client].Type, "srvkey:"+w.srv[sp.Srv].ident.Type)
+				if sp.Enc != 0 {
+					nontrivial = true
+					fp = append(fp, fmt.Sprintf("session|%s|%s|keyenc=%s", flow, idents[sp.Client].Type, keyEncNames[sp.Enc]))
+				}
+			}
+			if len(w.challenges) == 0 { // every session was refused before a challenge was issued
+				w.send(w.srv[0], hostNames[0], hostNames[0], nil, -1)
 			}
 			for _, ap := range sc.Attacks {
 				// base request: a captured step, or the continuation of a challenge seen so far
@@ -941,6 +969,13 @@ func TestServerProvenance(t *testing.T) {
 						}
 						labels = append(labels, "op:quote", "quote:"+seg[2]+":"+oc, "quote-junk:"+seg[3])
 					}
+					if seg[0] == "keyenc" && len(seg) > 2 {
+						oc := "rejected"
+						if res.called {
+							oc = "accepted"
+						}
+						labels = append(labels, "keyenc:"+seg[1]+":"+oc, "keyenc-key:"+seg[2]+":"+oc)
+					}
 					if seg[0] == "resign" {
 						labels = append(labels, "op:resign")
 						for _, x := range seg[1:] {
@@ -969,6 +1004,9 @@ func TestServerProvenance(t *testing.T) {
 				labels = append(labels, "mode:tls")
 			}
 			labels = append(labels, fmt.Sprintf("instances:%d", len(w.srv)))
+			labels = append(labels, w.notes...)
+			rl, _ := w.reuseLabels()
+			labels = append(labels, rl...)
 		})
 		stats.Case(name, strings.Join(fp, " ; "), nontrivial, labels...)
 		if stats.WantSample(name) {
